@@ -22,8 +22,9 @@ RULES = {
     'R10': 'connection_destroyed is called under a guard reference, so that a reference taken and dropped inside it does not destroy the connection a second time',
     'R11': 'what can fault comes last under the SIGBUS guard: in the transport disconnect that sets a jump target for SIGBUS, for every connection state, no deregistration or close of the connection\'s descriptor follows a ring close in the same call (a ring file the client truncated makes the close jump to the end: the descriptor would stay in the main loop, dispatching to a connection that is then destroyed)',
     'R12': 'a registration that fails half-way takes the first half back: where a transport registers two descriptors of a connection with the main loop, the failure of the second registration is followed by dispatch_del of the first on every path - the connection is freed right after, and the main loop would keep a (closed) descriptor that dispatches to it',
+    'R13': 'no request after closed: in the dispatcher\'s batch loop the next request is taken only after the connection was seen to be still ESTABLISHED - msg_process may have disconnected it (connection_closed has then run; on shared memory the request ring stays readable while the dispatcher holds its reference, so the queued requests of the batch would still be delivered)',
 }
-FLOORS = {'R12': 1, 'R11': 4, 'R1': 24, 'R2': 4, 'R3': 9, 'R4': 8, 'R5': 2, 'R6': 5, 'R7': 6, 'R8': 3, 'R9': 6, 'R10': 1}
+FLOORS = {'R13': 1, 'R12': 1, 'R11': 4, 'R1': 24, 'R2': 4, 'R3': 9, 'R4': 8, 'R5': 2, 'R6': 5, 'R7': 6, 'R8': 3, 'R9': 6, 'R10': 1}
 
 CB = ('connection_accept', 'connection_created', 'msg_process', 'connection_closed', 'connection_destroyed')
 SLOT = 'qb_ipcs_service_handlers::%s'
@@ -44,6 +45,7 @@ def run(ctx):
     r10(ctx)
     r11(ctx, st)
     r12(ctx)
+    r13(ctx, st)
 
 
 def r1(ctx, st):
@@ -813,3 +815,26 @@ def r12(ctx):
                       % (estr(unwrap(unwrap(a2.rhs)['args'][1])), fd1))
     if n == 0:
         raise AnalysisBroken('R12: no transport registers two descriptors')
+
+
+def r13(ctx, st):
+    prog = ctx.prog
+    EST = st['QB_IPCS_CONNECTION_ESTABLISHED']
+    f = prog.fn('qb_ipcs_dispatch_connection_request')
+    prs = [ev for ev in f.events('CALL') if ev.callee == '_process_request_'] + \
+          [ev for ev in f.events('STORE') if ev.rhs is not None and callee_of(unwrap(ev.rhs)) == '_process_request_']
+    if not prs:
+        raise AnalysisBroken('qb_ipcs_dispatch_connection_request: no call of _process_request_')
+    pr = prs[0]
+    loops = f.natural_loops()
+    if not any(pr.blk in b for b in loops.values()):
+        raise AnalysisBroken('qb_ipcs_dispatch_connection_request: requests are not processed in a loop')
+
+    def not_seen_established(fb, t, lab):
+        if fb.cond is None or lab not in (True, False):
+            return True
+        return not any(field_is(a.l, 'state', 'qb_ipcs_connection') and a.op == '==' and a.rc == EST for a in atoms_of(fb.cond, lab))
+    hits, _e, _n = f.search(('after', pr), goal=lambda ev: ev.d is pr.d, edge_filter=not_seen_established)
+    ctx.check('R13', 'next-request-only-if-still-established', not hits, pr,
+              'between two requests of a batch the connection is seen to be ESTABLISHED',
+              'the batch loop takes the next request without having looked at the connection state: a msg_process that disconnects the connection (connection_closed runs, returns 0) is followed by msg_process for the requests still queued')
